@@ -42,7 +42,19 @@ META.update({
             "text": "Exploration: paired lock-step histories (as is / table erased before each build) under a distinct-mtime clock and a one-tick-per-invocation clock; any difference in verdict or bytes, or a stale hash handed to a dependent, is a violation.", "note": HIST_NOTE},
 })
 
+PURE_NOTE = "trusted base: the reference written in the driver; inputs are generated, not enumerated"
+META.update({
+    "C13": {"engine": "ident", "technique": "differential runtime check: identity equality vs canonical-form equality on generated near-miss pairs, also through the real parser",
+            "text": "Exploration over adversarial near-miss pairs of rules.", "note": PURE_NOTE},
+    "C14": {"engine": "parse", "technique": "differential runtime check of the real parser against a reference reading of the format, under catch_unwind",
+            "text": "Exploration: rendered rule sets, corruptions and soups go through the real parser and a separately written reference; results and error (kind, file, line) must match; panics are violations.", "note": PURE_NOTE},
+    "C15": {"engine": "hash", "technique": "differential runtime check: ruler's hashes and text codec vs Python hashlib and independent base-62 implementations",
+            "text": "Exploration over byte strings (all lengths around the read buffer), 256-bit values, candidate strings and directory trees.", "note": "trusted base: Python hashlib; independent base-62 in Python and Rust"},
+    "C16": {"engine": "codec", "technique": "runtime round-trip and damage injection on ruler's own state-file writers/readers; independent bincode layout reader",
+            "text": "Exploration over generated state files and systematic damage (all prefixes, all single bit flips of small images, random bytes).", "note": PURE_NOTE},
+})
+
 NOT_APPLICABLE = [
     {"property_id": p, "reason": "check not built yet in this session (planned in DESIGN.md section 4); not claimed until its monitor exists"}
-    for p in ["C13", "C14", "C15", "C16", "C19"]
+    for p in ["C19"]
 ]
